@@ -2,8 +2,8 @@ import PdeVerif.Props.C05c
 import PdeVerif.Model.ConserveRun
 /-
 C05, fourth part - theorems about the definitions the driver handler `c05.run` evaluates against real simulations
-(`Model/ConserveRun.lean`): whole runs of the fixed-step Euler and Runge-Kutta solvers (`Solvers.fixedStepper` around
-`Solvers.eulerStep` / `Solvers.rk4Step rk4Tab` at the padded-array type) with the right-hand side "ghost cells by
+(`Model/ConserveRun.lean`): whole runs of the fixed-step Euler, Runge-Kutta, implicit Euler and Crank-Nicolson solvers (`Solvers.fixedStepper` around
+`Solvers.eulerStep` / `rk4Step rk4Tab` / `fixpointLoop` over `implicitIter` / `cnIter` at the padded-array type) with the right-hand side "ghost cells by
 `setGhostAll (consFaces …)`, then the Laplacian" keep the volume-weighted sum `cellMass` of `state.data`, for every
 number of steps, step size, potential, grid size and spacing.  Plus the boundary-flux identities of the Cartesian
 divergence in 2-d and 3-d, and the exact defect of the (non-conservative) cylindrical divergence.
@@ -49,35 +49,99 @@ theorem cellStep_conserves (I : (Arr F) →ₗ[F] F) (cells : List (List Int)) (
   | euler => rw [wholeStep_euler]; exact euler_step_conserves I f hf dt _ _
   | rk4 => rw [wholeStep_rk4]; exact rk4_step_conserves_source_tableau I f hf dt _ _
 
-/-- **the simulation clause for the run model**: the total after the `stepCount` steps of `fixed_stepper` equals the
-initial one - induction over the steps (`fixedStepper_conserves`), Euler and Runge-Kutta -/
-theorem cellRun_conserves [LT F] [DecidableLT F] [LE F] [DecidableLE F] [HasFloor F]
+/-- the fixed-point loop of the implicit solvers returns an iterate: every property the starting iterate has and the
+iteration map keeps, the returned state has (`fixpointLoop_conserves` of C05c needs it of *every* iterate) -/
+theorem fixpointLoop_invariant {K : Type} [Add K] [Sub K] [Mul K] [Div K] [NatCast K] [HasNormSq K] [LT K] [DecidableLT K]
+    (P : List K → Prop) (it : List K → List K) (hit : ∀ xs, P xs → P (it xs)) (e : K) (m : Nat) (xs : List K) (n : Nat)
+    (hx : P xs) (ys : List K) (k : Nat) (h : fixpointLoop it e m xs n = some (ys, k)) : P ys := by
+  induction m generalizing xs n with
+  | zero => simp [fixpointLoop] at h
+  | succ m ih =>
+    rw [fixpointLoop] at h
+    split at h
+    · simp only [Option.some.injEq, Prod.mk.injEq] at h
+      rw [← h.1]; exact hit xs hx
+    · exact ih _ _ (hit xs hx) h
+
+/-- implicit Euler on `state.data`: whatever `maxiter`, `maxerror` and the number of iterations performed -/
+theorem cellImplicitStep_conserves [HasNormSq F] [LT F] [DecidableLT F]
     (I : (Arr F) →ₗ[F] F) (cells : List (List Int)) (hI : ReadsOnly I cells)
-    (f : Rate (Arr F)) (hf : Conserving I f) (sch : RunScheme) (dt ts te : F) (s s' : List F) (tr : F)
-    (h : cellRun cells sch f dt ts te s = some (s', tr)) : I (ofCells cells s') = I (ofCells cells s) :=
-  fixedStepper_conserves (fun s => I (ofCells cells s)) (cellStep cells sch f dt)
-    (fun s t s' hs => cellStep_conserves I cells hI f hf sch dt s s' t hs) dt ts te s s' tr h
+    (f : Rate (Arr F)) (hf : Conserving I f) (maxiter : Nat) (maxerror dt : F) (s s' : List F) (t : F)
+    (h : cellImplicitStep cells f maxiter maxerror dt s t = some s') : I (ofCells cells s') = I (ofCells cells s) := by
+  unfold cellImplicitStep at h
+  split at h
+  · cases h
+  · rename_i ys k hfp
+    simp only [Option.some.injEq] at h
+    subst h
+    refine fixpointLoop_invariant (fun xs => I (ofCells cells xs) = I (ofCells cells s)) _ ?_ _ _ _ _ ?_ _ _ hfp
+    · intro xs _
+      show I (ofCells cells (readCells cells _)) = _
+      rw [hI _ _ (fun idx hidx => ofCells_readCells cells _ idx hidx)]
+      exact (implicit_iterates_conserve I f hf dt (κ t) (ofCells cells s) (ofCells cells xs)).2
+    · show I (ofCells cells (readCells cells _)) = _
+      rw [hI _ _ (fun idx hidx => ofCells_readCells cells _ idx hidx)]
+      exact (implicit_iterates_conserve I f hf dt (κ t) (ofCells cells s) (ofCells cells s)).1
+
+/-- Crank-Nicolson on `state.data`, every `explicit_fraction` -/
+theorem cellCNStep_conserves [HasNormSq F] [LT F] [DecidableLT F]
+    (I : (Arr F) →ₗ[F] F) (cells : List (List Int)) (hI : ReadsOnly I cells)
+    (f : Rate (Arr F)) (hf : Conserving I f) (α : F) (maxiter : Nat) (maxerror dt : F) (s s' : List F) (t : F)
+    (h : cellCNStep cells f α maxiter maxerror dt s t = some s') : I (ofCells cells s') = I (ofCells cells s) := by
+  unfold cellCNStep at h
+  split at h
+  · cases h
+  · rename_i ys k hfp
+    simp only [Option.some.injEq] at h
+    subst h
+    refine fixpointLoop_invariant (fun xs => I (ofCells cells xs) = I (ofCells cells s)) _ ?_ _ _ _ _ ?_ _ _ hfp
+    · intro xs hxs
+      show I (ofCells cells (readCells cells _)) = _
+      rw [hI _ _ (fun idx hidx => ofCells_readCells cells _ idx hidx)]
+      exact cn_iter_conserves I f hf α dt (κ t) (ofCells cells s) (ofCells cells xs) hxs
+    · show I (ofCells cells (readCells cells _)) = _
+      rw [hI _ _ (fun idx hidx => ofCells_readCells cells _ idx hidx)]
+      exact cn_iter_conserves I f hf α dt (κ t) (ofCells cells s) (ofCells cells s) rfl
+
+/-- every solver of the run model -/
+theorem solverStep_conserves [HasNormSq F] [LT F] [DecidableLT F]
+    (I : (Arr F) →ₗ[F] F) (cells : List (List Int)) (hI : ReadsOnly I cells)
+    (f : Rate (Arr F)) (hf : Conserving I f) (sol : RunSolver F) (dt : F) (s s' : List F) (t : F)
+    (h : solverStep cells sol f dt s t = some s') : I (ofCells cells s') = I (ofCells cells s) := by
+  cases sol with
+  | explicit sch => exact cellStep_conserves I cells hI f hf sch dt s s' t h
+  | implicit mi me => exact cellImplicitStep_conserves I cells hI f hf mi me dt s s' t h
+  | crankNicolson α mi me => exact cellCNStep_conserves I cells hI f hf α mi me dt s s' t h
+
+/-- **the simulation clause for the run model**: the total after the `stepCount` steps of `fixed_stepper` equals the
+initial one - induction over the steps (`fixedStepper_conserves`); Euler, Runge-Kutta, implicit Euler, Crank-Nicolson -/
+theorem solverRun_conserves [HasNormSq F] [LT F] [DecidableLT F] [LE F] [DecidableLE F] [HasFloor F]
+    (I : (Arr F) →ₗ[F] F) (cells : List (List Int)) (hI : ReadsOnly I cells)
+    (f : Rate (Arr F)) (hf : Conserving I f) (sol : RunSolver F) (dt ts te : F) (s s' : List F) (tr : F)
+    (h : solverRun cells sol f dt ts te s = some (s', tr)) : I (ofCells cells s') = I (ofCells cells s) :=
+  fixedStepper_conserves (fun s => I (ofCells cells s)) (solverStep cells sol f dt)
+    (fun s t s' hs => solverStep_conserves I cells hI f hf sol dt s s' t hs) dt ts te s s' tr h
 
 /-- the loop of the controller around the stepper (any number of calls, any tolerance) -/
-theorem cellRuns_conserves [LT F] [DecidableLT F] [LE F] [DecidableLE F] [HasFloor F]
+theorem solverRuns_conserves [HasNormSq F] [LT F] [DecidableLT F] [LE F] [DecidableLE F] [HasFloor F]
     (I : (Arr F) →ₗ[F] F) (cells : List (List Int)) (hI : ReadsOnly I cells)
-    (f : Rate (Arr F)) (hf : Conserving I f) (sch : RunScheme) (dt te atol : F) (fuel : Nat) (t : F) (s : List F) (k : Nat)
+    (f : Rate (Arr F)) (hf : Conserving I f) (sol : RunSolver F) (dt te atol : F) (fuel : Nat) (t : F) (s : List F) (k : Nat)
     (s' : List F) (t' : F) (k' : Nat)
-    (h : cellRuns cells sch f dt te atol fuel t s k = some (s', t', k')) : I (ofCells cells s') = I (ofCells cells s) := by
+    (h : solverRuns cells sol f dt te atol fuel t s k = some (s', t', k')) : I (ofCells cells s') = I (ofCells cells s) := by
   induction fuel generalizing t s k with
   | zero =>
-    simp only [cellRuns, Option.some.injEq, Prod.mk.injEq] at h
+    simp only [solverRuns, Option.some.injEq, Prod.mk.injEq] at h
     rw [← h.1]
   | succ fuel ih =>
-    rw [cellRuns] at h
+    rw [solverRuns] at h
     split at h
-    · cases hr : cellRun cells sch f dt t te s with
+    · cases hr : solverRun cells sol f dt t te s with
       | none => rw [hr] at h; cases h
       | some r =>
         obtain ⟨s1, t1⟩ := r
         rw [hr] at h
         rw [ih _ _ _ h]
-        exact cellRun_conserves I cells hI f hf sch dt t te s s1 t1 hr
+        exact solverRun_conserves I cells hI f hf sol dt t te s s1 t1 hr
     · simp only [Option.some.injEq, Prod.mk.injEq] at h
       rw [← h.1]
 
@@ -140,45 +204,45 @@ end cells
 
 /-! ### the runs the driver evaluates (`c05.run`): Cartesian 1-3 axes, every axis walls or periodic -/
 section cartruns
-variable {F : Type} [Field F] [CharZero F] [LT F] [DecidableLT F] [LE F] [DecidableLE F] [HasFloor F]
+variable {F : Type} [Field F] [CharZero F] [HasNormSq F] [LT F] [DecidableLT F] [LE F] [DecidableLE F] [HasFloor F]
 
 theorem cart1_run_conserves (dx lo : F) (hdx : dx ≠ 0) (n : Nat) (hn : 1 ≤ n) (px : Bool)
-    (mu : Arr F → Arr F → Arr F) (sch : RunScheme) (dt ts te atol : F) (fuel k k' : Nat) (s s' : List F) (tr : F)
-    (h : cellRuns (validCells [n]) sch (consRate .cart [n] lo [dx] [px] mu) dt te atol fuel ts s k = some (s', tr, k')) :
+    (mu : Arr F → Arr F → Arr F) (sol : RunSolver F) (dt ts te atol : F) (fuel k k' : Nat) (s s' : List F) (tr : F)
+    (h : solverRuns (validCells [n]) sol (consRate .cart [n] lo [dx] [px] mu) dt te atol fuel ts s k = some (s', tr, k')) :
     cellMass .cart [n] lo [dx] s' = cellMass .cart [n] lo [dx] s :=
-  cellRuns_conserves (cellSum (fun _ => dx) (fun i => [(i : Int)]) n) (validCells [n])
+  solverRuns_conserves (cellSum (fun _ => dx) (fun i => [(i : Int)]) n) (validCells [n])
     (cellSum_readsOnly _ _ n _ (fun i h1 h2 => mem_validCells_cons n [] i [] h1 h2 mem_validCells_nil))
-    (cart1Rate dx n px mu) (cart1Rate_conserving dx hdx n hn px mu) sch dt te atol fuel ts s k s' tr k' h
+    (cart1Rate dx n px mu) (cart1Rate_conserving dx hdx n hn px mu) sol dt te atol fuel ts s k s' tr k' h
 
 theorem cart2_run_conserves (dx dy lo : F) (hdx : dx ≠ 0) (hdy : dy ≠ 0) (n m : Nat) (hn : 1 ≤ n) (hm : 1 ≤ m)
-    (px py : Bool) (mu : Arr F → Arr F → Arr F) (sch : RunScheme) (dt ts te atol : F) (fuel k k' : Nat) (s s' : List F) (tr : F)
-    (h : cellRuns (validCells [n, m]) sch (consRate .cart [n, m] lo [dx, dy] [px, py] mu) dt te atol fuel ts s k = some (s', tr, k')) :
+    (px py : Bool) (mu : Arr F → Arr F → Arr F) (sol : RunSolver F) (dt ts te atol : F) (fuel k k' : Nat) (s s' : List F) (tr : F)
+    (h : solverRuns (validCells [n, m]) sol (consRate .cart [n, m] lo [dx, dy] [px, py] mu) dt te atol fuel ts s k = some (s', tr, k')) :
     cellMass .cart [n, m] lo [dx, dy] s' = cellMass .cart [n, m] lo [dx, dy] s :=
-  cellRuns_conserves (cellSum2 (fun _ _ => dx * dy) (fun i j => [(i : Int), (j : Int)]) n m) (validCells [n, m])
+  solverRuns_conserves (cellSum2 (fun _ _ => dx * dy) (fun i j => [(i : Int), (j : Int)]) n m) (validCells [n, m])
     (cellSum2_readsOnly _ _ n m _ (fun i j h1 h2 h3 h4 =>
       mem_validCells_cons n [m] i [(j : Int)] h1 h2 (mem_validCells_cons m [] j [] h3 h4 mem_validCells_nil)))
-    (cart2Rate dx dy n m px py mu) (cart2Rate_conserving dx dy hdx hdy n m hn hm px py mu) sch dt te atol fuel ts s k s' tr k' h
+    (cart2Rate dx dy n m px py mu) (cart2Rate_conserving dx dy hdx hdy n m hn hm px py mu) sol dt te atol fuel ts s k s' tr k' h
 
 theorem cart3_run_conserves (dx dy dz lo : F) (hdx : dx ≠ 0) (hdy : dy ≠ 0) (hdz : dz ≠ 0) (n m l : Nat)
-    (hn : 1 ≤ n) (hm : 1 ≤ m) (hl : 1 ≤ l) (px py pz : Bool) (mu : Arr F → Arr F → Arr F) (sch : RunScheme)
+    (hn : 1 ≤ n) (hm : 1 ≤ m) (hl : 1 ≤ l) (px py pz : Bool) (mu : Arr F → Arr F → Arr F) (sol : RunSolver F)
     (dt ts te atol : F) (fuel k k' : Nat) (s s' : List F) (tr : F)
-    (h : cellRuns (validCells [n, m, l]) sch (consRate .cart [n, m, l] lo [dx, dy, dz] [px, py, pz] mu) dt te atol fuel ts s k
+    (h : solverRuns (validCells [n, m, l]) sol (consRate .cart [n, m, l] lo [dx, dy, dz] [px, py, pz] mu) dt te atol fuel ts s k
       = some (s', tr, k')) :
     cellMass .cart [n, m, l] lo [dx, dy, dz] s' = cellMass .cart [n, m, l] lo [dx, dy, dz] s :=
-  cellRuns_conserves (cellSum3 (fun _ _ _ => dx * dy * dz) (fun i j k => [(i : Int), (j : Int), (k : Int)]) n m l)
+  solverRuns_conserves (cellSum3 (fun _ _ _ => dx * dy * dz) (fun i j k => [(i : Int), (j : Int), (k : Int)]) n m l)
     (validCells [n, m, l])
     (cellSum3_readsOnly _ _ n m l _ (fun i j k h1 h2 h3 h4 h5 h6 =>
       mem_validCells_cons n [m, l] i [(j : Int), (k : Int)] h1 h2
         (mem_validCells_cons m [l] j [(k : Int)] h3 h4 (mem_validCells_cons l [] k [] h5 h6 mem_validCells_nil))))
     (cart3Rate dx dy dz n m l px py pz mu) (cart3Rate_conserving dx dy dz hdx hdy hdz n m l hn hm hl px py pz mu)
-    sch dt te atol fuel ts s k s' tr k' h
+    sol dt te atol fuel ts s k s' tr k' h
 
 end cartruns
 
 /-! ### radially symmetric grids (polar, spherical with the conservative stencil, cylindrical with walls or periodic `z`),
 with or without a hole: zero-flux conditions on every non-periodic face -/
 section radialruns
-variable {F : Type} [Field F] [LinearOrder F] [IsStrictOrderedRing F] [HasFloor F]
+variable {F : Type} [Field F] [LinearOrder F] [IsStrictOrderedRing F] [HasNormSq F] [HasFloor F]
 
 theorem consFaces_eq_radialFaces1 (n : Nat) (dr : F) :
     consFaces [n] false [dr] [false] = radialFaces [n] false [dr] [false] (consCond false false) false := rfl
@@ -188,40 +252,40 @@ theorem consFaces_eq_radialFaces2 (n m : Nat) (dr dz : F) (pz : Bool) :
       = radialFaces [n, m] false [dr, dz] [false, pz] (consCond false false) false := rfl
 
 theorem polar_run_conserves (rmin dr : F) (h0 : 0 ≤ rmin) (hdr : 0 < dr) (n : Nat) (hn : 1 ≤ n)
-    (mu : Arr F → Arr F → Arr F) (sch : RunScheme) (dt ts te atol : F) (fuel k k' : Nat) (s s' : List F) (tr : F)
-    (h : cellRuns (validCells [n]) sch (consRate .polar [n] rmin [dr] [false] mu) dt te atol fuel ts s k = some (s', tr, k')) :
+    (mu : Arr F → Arr F → Arr F) (sol : RunSolver F) (dt ts te atol : F) (fuel k k' : Nat) (s s' : List F) (tr : F)
+    (h : solverRuns (validCells [n]) sol (consRate .polar [n] rmin [dr] [false] mu) dt te atol fuel ts s k = some (s', tr, k')) :
     cellMass .polar [n] rmin [dr] s' = cellMass .polar [n] rmin [dr] s :=
-  cellRuns_conserves (cellSum (fun i => volPolar (centre rmin dr) dr (i : Int)) (fun i => [(i : Int)]) n) (validCells [n])
+  solverRuns_conserves (cellSum (fun i => volPolar (centre rmin dr) dr (i : Int)) (fun i => [(i : Int)]) n) (validCells [n])
     (cellSum_readsOnly _ _ n _ (fun i h1 h2 => mem_validCells_cons n [] i [] h1 h2 mem_validCells_nil))
     (polarRate rmin dr n (consCond false false) false mu)
     (polarRate_conserving rmin dr h0 hdr n hn _ _ (Or.inr ⟨rfl, rfl⟩) (fun k hk => by simp [consCond] at hk) mu)
-    sch dt te atol fuel ts s k s' tr k' h
+    sol dt te atol fuel ts s k s' tr k' h
 
 theorem sph_run_conserves (rmin dr : F) (hdr : 0 < dr) (n : Nat) (hn : 1 ≤ n)
-    (mu : Arr F → Arr F → Arr F) (sch : RunScheme) (dt ts te atol : F) (fuel k k' : Nat) (s s' : List F) (tr : F)
-    (h : cellRuns (validCells [n]) sch (consRate .sph [n] rmin [dr] [false] mu) dt te atol fuel ts s k = some (s', tr, k')) :
+    (mu : Arr F → Arr F → Arr F) (sol : RunSolver F) (dt ts te atol : F) (fuel k k' : Nat) (s s' : List F) (tr : F)
+    (h : solverRuns (validCells [n]) sol (consRate .sph [n] rmin [dr] [false] mu) dt te atol fuel ts s k = some (s', tr, k')) :
     cellMass .sph [n] rmin [dr] s' = cellMass .sph [n] rmin [dr] s :=
-  cellRuns_conserves (cellSum (fun i => volSph (centre rmin dr) dr (i : Int)) (fun i => [(i : Int)]) n) (validCells [n])
+  solverRuns_conserves (cellSum (fun i => volSph (centre rmin dr) dr (i : Int)) (fun i => [(i : Int)]) n) (validCells [n])
     (cellSum_readsOnly _ _ n _ (fun i h1 h2 => mem_validCells_cons n [] i [] h1 h2 mem_validCells_nil))
     (sphRate rmin dr n (consCond false false) false mu)
     (sphRate_conserving rmin dr hdr n hn _ _ (Or.inr ⟨rfl, rfl⟩) (fun k hk => by simp [consCond] at hk) mu)
-    sch dt te atol fuel ts s k s' tr k' h
+    sol dt te atol fuel ts s k s' tr k' h
 
 theorem cyl_run_conserves (rmin dr dz : F) (h0 : 0 ≤ rmin) (hdr : 0 < dr) (hdz : dz ≠ 0) (n m : Nat) (hn : 1 ≤ n)
-    (hm : 1 ≤ m) (pz : Bool) (mu : Arr F → Arr F → Arr F) (sch : RunScheme) (dt ts te atol : F) (fuel k k' : Nat) (s s' : List F) (tr : F)
-    (h : cellRuns (validCells [n, m]) sch (consRate .cyl [n, m] rmin [dr, dz] [false, pz] mu) dt te atol fuel ts s k = some (s', tr, k')) :
+    (hm : 1 ≤ m) (pz : Bool) (mu : Arr F → Arr F → Arr F) (sol : RunSolver F) (dt ts te atol : F) (fuel k k' : Nat) (s s' : List F) (tr : F)
+    (h : solverRuns (validCells [n, m]) sol (consRate .cyl [n, m] rmin [dr, dz] [false, pz] mu) dt te atol fuel ts s k = some (s', tr, k')) :
     cellMass .cyl [n, m] rmin [dr, dz] s' = cellMass .cyl [n, m] rmin [dr, dz] s :=
-  cellRuns_conserves (cellSum2 (fun i _ => volCyl (centre rmin dr) dr dz (i : Int)) (fun i j => [(i : Int), (j : Int)]) n m)
+  solverRuns_conserves (cellSum2 (fun i _ => volCyl (centre rmin dr) dr dz (i : Int)) (fun i j => [(i : Int), (j : Int)]) n m)
     (validCells [n, m])
     (cellSum2_readsOnly _ _ n m _ (fun i j h1 h2 h3 h4 =>
       mem_validCells_cons n [m] i [(j : Int)] h1 h2 (mem_validCells_cons m [] j [] h3 h4 mem_validCells_nil)))
     (cylRate rmin dr dz n m pz (consCond false false) false mu)
     (cylRate_conserving rmin dr dz h0 hdr hdz n m hn hm pz _ _ (Or.inr ⟨rfl, rfl⟩) (fun k hk => by simp [consCond] at hk) mu)
-    sch dt te atol fuel ts s k s' tr k' h
+    sol dt te atol fuel ts s k s' tr k' h
 
 /-- the hypotheses are satisfiable and the statement has content: a run of the model evaluated - two Euler steps of the
 diffusion equation on a polar grid with hole, non-constant state: the state changes, the total does not -/
-example : (cellRun (validCells [3]) .euler (consRate .polar [3] (1 : Rat) [1 / 2] [false] (muDiffusion (1 / 2)))
+example : (solverRun (validCells [3]) (.explicit .euler) (consRate .polar [3] (1 : Rat) [1 / 2] [false] (muDiffusion (1 / 2)))
       (1 / 64) 0 (1 / 32) [1, 4, 9]).map (fun r => (decide (r.1 = [1, 4, 9]), cellMass .polar [3] (1 : Rat) [1 / 2] r.1))
     = some (false, cellMass .polar [3] (1 : Rat) [1 / 2] [1, 4, 9]) := by decide +kernel
 
